@@ -37,7 +37,7 @@ def to_xml(node: Node, level: int = 0) -> str:
     attributes = ""
     for attribute in node.attributes:
         attributes += ' {0}="{1}"'.format(
-            attribute, escape(str(node.attributes[attribute]), {'"': "&quot;"})
+            attribute, escape(str(node.attributes[attribute]), {'"': "&quot;", "\t": "&#9;", "\n": "&#10;", "\r": "&#13;"})
         )
     if level == 0:
         indent = ""
